@@ -137,10 +137,13 @@ fn build_fx(sc: &Scenario) -> Fx {
     };
     let npoly = if sc.driver == "jacobian" { sc.m } else { 1 };
     let polys = (0..npoly).map(|_| Poly::gen(&mut r, nv, max_deg, sc.simple)).collect();
-    let (a, b): (Vec<f64>, Vec<f64>) = if sc.simple {
-        ((0..nv).map(|i| (i + 1) as f64).collect(), (0..nv).map(|i| if i % 2 == 0 { 1.0 } else { -1.0 }).collect())
+    let (a, b): (Vec<f64>, Vec<[f64; 2]>) = if sc.simple {
+        ((0..nv).map(|i| (i + 1) as f64).collect(), (0..nv).map(|i| if i % 2 == 0 { [1.0, 0.0] } else { [-1.0, 2.0] }).collect())
     } else {
-        ((0..nv).map(|_| (r.below(9) as f64 - 4.0) / 2.0).collect(), (0..nv).map(|_| (r.below(9) as f64 - 4.0) / 2.0).collect())
+        let a = (0..nv).map(|_| (r.below(9) as f64 - 4.0) / 2.0).collect();
+        // one variable in three carries no direction at all (for T = DualDVec64: an absent part)
+        let b = (0..nv).map(|_| if r.chance(330) { [0.0, 0.0] } else { [(r.below(9) as f64 - 4.0) / 2.0, (r.below(9) as f64 - 4.0) / 2.0] }).collect();
+        (a, b)
     };
     let ijk = if sc.driver == "partial_hessian" { [sc.m, 0, 0] } else { sc.ijk };
     Fx { polys, a, b, ijk, scale: 0 }
@@ -151,7 +154,7 @@ fn scale_for(sc: &Scenario, unscaled: &[Part]) -> i32 {
     if sc.scale_mode == 0 {
         return 0;
     }
-    let mags: Vec<f64> = unscaled.iter().filter(|p| p.0 != SHAPE).flat_map(|p| [Some(p.0), p.1]).flatten().map(|b| f64::from_bits(b).abs()).filter(|v| *v > 0.0).collect();
+    let mags: Vec<f64> = unscaled.iter().filter(|p| p.0 != SHAPE).flat_map(|p| [Some(p.0), p.1, p.2]).flatten().map(|b| f64::from_bits(b).abs()).filter(|v| *v > 0.0).collect();
     if mags.is_empty() {
         return 0;
     }
@@ -171,16 +174,23 @@ fn apply_scale(parts: &[Part], k: i32) -> Vec<Part> {
     }
     let f = 2f64.powi(k);
     let sc = |b: u64| exact::canon(f64::from_bits(b) * f);
-    parts.iter().map(|p| if p.0 == SHAPE { *p } else { (sc(p.0), p.1.map(sc)) }).collect()
+    parts.iter().map(|p| if p.0 == SHAPE { *p } else { (sc(p.0), p.1.map(sc), p.2.map(sc)) }).collect()
 }
 
 /// what C05 promises for this scenario, from the exact reference
 fn expected(sc: &Scenario, fx: &Fx) -> Vec<Part> {
-    let nested = sc.scalar == "nested";
+    let ndir = match sc.scalar.as_str() {
+        "nested" => 1,
+        "nestedvec" => 2,
+        _ => 0,
+    };
     let f32s = sc.scalar == "f32";
     let a: Vec<Dy> = fx.a.iter().map(|v| Dy::halves((v * 2.0) as i64)).collect();
-    let b: Vec<Dy> = fx.b.iter().map(|v| Dy::halves((v * 2.0) as i64)).collect();
-    let val = |q: &Poly| -> Part { (q.eval(&a).bits(f32s), if nested { Some(q.eval_dir(&a, &b).bits(false)) } else { None }) };
+    let b0: Vec<Dy> = fx.b.iter().map(|v| Dy::halves((v[0] * 2.0) as i64)).collect();
+    let b1: Vec<Dy> = fx.b.iter().map(|v| Dy::halves((v[1] * 2.0) as i64)).collect();
+    let val = |q: &Poly| -> Part {
+        (q.eval(&a).bits(f32s), if ndir >= 1 { Some(q.eval_dir(&a, &b0).bits(false)) } else { None }, if ndir >= 2 { Some(q.eval_dir(&a, &b1).bits(false)) } else { None })
+    };
     let f = &fx.polys[0];
     let mut out = vec![];
     match sc.driver.as_str() {
@@ -194,10 +204,10 @@ fn expected(sc: &Scenario, fx: &Fx) -> Vec<Part> {
         }
         "gradient" | "hessian" => {
             out.push(val(f));
-            out.push((SHAPE, Some(sc.n as u64)));
+            out.push((SHAPE, Some(sc.n as u64), None));
             out.extend((0..sc.n).map(|i| val(&f.diff(i))));
             if sc.driver == "hessian" {
-                out.push((SHAPE, Some(((sc.n as u64) << 32) | sc.n as u64)));
+                out.push((SHAPE, Some(((sc.n as u64) << 32) | sc.n as u64), None));
                 for i in 0..sc.n {
                     for j in 0..sc.n {
                         out.push(val(&f.diff(i).diff(j)));
@@ -206,9 +216,9 @@ fn expected(sc: &Scenario, fx: &Fx) -> Vec<Part> {
             }
         }
         "jacobian" => {
-            out.push((SHAPE, Some(sc.m as u64)));
+            out.push((SHAPE, Some(sc.m as u64), None));
             out.extend(fx.polys.iter().map(&val));
-            out.push((SHAPE, Some(((sc.m as u64) << 32) | sc.n as u64)));
+            out.push((SHAPE, Some(((sc.m as u64) << 32) | sc.n as u64), None));
             for p in &fx.polys {
                 for j in 0..sc.n {
                     out.push(val(&p.diff(j)));
@@ -217,11 +227,11 @@ fn expected(sc: &Scenario, fx: &Fx) -> Vec<Part> {
         }
         "partial_hessian" => {
             out.push(val(f));
-            out.push((SHAPE, Some(sc.m as u64)));
+            out.push((SHAPE, Some(sc.m as u64), None));
             out.extend((0..sc.m).map(|i| val(&f.diff(i))));
-            out.push((SHAPE, Some(sc.n as u64)));
+            out.push((SHAPE, Some(sc.n as u64), None));
             out.extend((0..sc.n).map(|j| val(&f.diff(sc.m + j))));
-            out.push((SHAPE, Some(((sc.m as u64) << 32) | sc.n as u64)));
+            out.push((SHAPE, Some(((sc.m as u64) << 32) | sc.n as u64), None));
             for i in 0..sc.m {
                 for j in 0..sc.n {
                     out.push(val(&f.diff(i).diff(sc.m + j)));
@@ -238,9 +248,10 @@ fn show_part(p: &Part) -> String {
         let d = p.1.unwrap_or(0);
         return if d >> 32 == 0 { format!("<vector of {d}>") } else { format!("<matrix {}x{}>", d >> 32, d & 0xffff_ffff) };
     }
-    match p.1 {
-        None => format!("{:?}", f64::from_bits(p.0)),
-        Some(e) => format!("{:?}+{:?}ε", f64::from_bits(p.0), f64::from_bits(e)),
+    match (p.1, p.2) {
+        (None, _) => format!("{:?}", f64::from_bits(p.0)),
+        (Some(e), None) => format!("{:?}+{:?}ε", f64::from_bits(p.0), f64::from_bits(e)),
+        (Some(e), Some(e2)) => format!("{:?}+[{:?}, {:?}]ε", f64::from_bits(p.0), f64::from_bits(e), f64::from_bits(e2)),
     }
 }
 
@@ -804,7 +815,7 @@ fn main() {
     }
     let violations = unknown_keys.len() as i32;
     let wall = t0.elapsed().as_secs_f64();
-    let rule = "one case = one call of one of the twenty drivers of the real crate (driver x {f64, f32, nested Dual64} x static / dynamic / mixed dimensions x seeded integer polynomial(s) x seeded dyadic point) with a closure \
+    let rule = "one case = one call of one of the twenty drivers of the real crate (driver x {f64, f32, nested Dual64, nested DualDVec64 with possibly absent inner parts} x static / dynamic / mixed dimensions x seeded integer polynomial(s) x seeded dyadic point) with a closure \
 whose behaviour the simulator decides; per scenario, in this order on one thread: the infallible and the try_ variant fault-free, then EVERY plan of the table (closure returns Err before / after evaluating [try_ only], panics before / after evaluating, \
 calls the same driver again before / after evaluating), each followed by three fault-free calls (a companion scenario with other function, point and indices; one with other dynamic dimensions; the scenario itself). One scenario in three scales its results by a power of two into the top or bottom binade of the float type. Every component of every result is compared bit for bit with exact symbolic derivatives. distinct_nontrivial = distinct \
 (driver, variant, type configuration, dimensions, function/point seed, plan, outcome kind, closure invocations) among cases with a plan other than none";
